@@ -1,5 +1,6 @@
 (* C05 — XFLATE round trip / configuration handling. Model: XFlate/Writer.v
    over the external compressor [deflate]; XFlate/Reader.v. *)
+From V Require Import XFlate.K1Witness.
 From V Require Import Flate.Spec XFlate.Refine XFlate.RefineCheck XFlate.RoundTripStmt XFlate.RoundTripAll.
 From V Require Import Base.Prelude Meta.Model XFlate.Index XFlate.Writer XFlate.Reader XFlate.Thms XFlate.Witness.
 
@@ -57,3 +58,10 @@ Theorem xflate_written_streams_read_back : forall deflate, K1 deflate ->
       forall rops, fst (rrun s1 rops) = fst (sp_run (wops_data ops) (mkSp 0 None) rops).
 Proof. exact xflate_written_stream_is_a_readseeker. Qed.
 Print Assumptions xflate_written_streams_read_back.
+
+(* the contract K1 is satisfiable, so the theorems above are not vacuous: the simplest
+   compressor (every Write as non-final stored blocks, every Flush as an empty stored block)
+   satisfies it, and with it the whole pipeline - Writer model, Reader model - runs inside Coq *)
+Theorem contract_K1_is_satisfiable : K1 stored_deflate.
+Proof. exact stored_deflate_K1. Qed.
+Print Assumptions contract_K1_is_satisfiable.
